@@ -29,4 +29,11 @@ CHECKS.update({
         "technique": "symbolic execution (CrossHair + z3) of the real create pipeline; oracle = rewritten module passes when inline-snapshot is disabled, decided per path",
     },
 })
+CHECKS.update({
+    "C03": {
+        "text": "(a) the real generic_sequence_update / Change.replace / range_of / SourceRange / SourceFile._check run on real asttokens Token objects whose (line, col) positions are symbolic ints constrained only by lexical order, with symbolic delete and insert masks, for List/Tuple/Dict/Call parents: the solver shows on every path that each replacement is a gap between tokens inside the braces, never touches a kept element, replacements are disjoint and the resulting element sequence parses to exactly the expected one; (b) the real fix/trim pipeline runs on 8 adversarial layouts with symbolic values: text outside the snapshot() arguments is byte-identical (unclean file) or AST-identical (clean file) on every path.",
+        "note": "Bounds: (a) <=3 elements (thorough 4), multi-line layouts up to 1 element in quick / 3 in thorough, single-line beyond; callers' contract assumed for sequences (no insertion at a deleted index; the aligner lemma behind it is decided in C11). (b) layouts are an enumerated list, not quantified; one open known finding (CRLF files are rewritten with LF).",
+        "technique": "symbolic execution (CrossHair + z3) of the real token-range edit kernel over symbolic token positions and masks; real pipeline on layout templates with symbolic data",
+    },
+})
 NOT_APPLICABLE = {}
